@@ -27,10 +27,10 @@ from mirsym import models as M
 from mirsym import vfs as VF
 from mirsym import plumbing as PL      # noqa: F401
 from mirsym.models import ok, err, some, none, deref, future, pin_box, LockV
-from mirsym.engine import (Cell, Ref, Int, EnumV, Agg, VecV, Opaque, Inconclusive, Untranslatable, bz3, to_bool, b_not,
+from mirsym.engine import (Cell, Ref, Int, EnumV, Agg, VecV, Opaque, Inconclusive, Untranslatable, bz3, to_bool, b_not, b_or,
                            deep_copy, unit)
 
-CRATES = ["sos_core", "sos_filesystem", "sos_backend", "sos_sync", "sos_server_storage"]
+CRATES = ["sos_core", "sos_vault", "sos_filesystem", "sos_reducers", "sos_backend", "sos_sync", "sos_server_storage"]
 PLEN = 10
 
 
@@ -136,6 +136,11 @@ def find_impl(prog, trait, method):
     return "%s::%s" % (trait, method), None
 
 
+def plen_of(sc):
+    # forced replacements run the reducer over the new events afterwards: two event bytes (a kind tag) keep that small
+    return 2 if sc.get("force") else PLEN
+
+
 def scenarios(tier):
     out = []
     ks = (1, 2) if tier == "quick" else (1, 2, 3)
@@ -201,7 +206,7 @@ def run_scenario(prog, sc):
         proof = O.head_proof_of(eng, ctx, pb)
         new, nmeta = [], []
         for i in range(sc["n"]):
-            r, m = F.sym_record(ctx, "n%d" % i, plen=PLEN)
+            r, m = F.sym_record(ctx, "n%d" % i, plen=plen_of(sc))
             new.append(r)
             nmeta.append(m)
         lt = EnumV("EventLogType", "Folder", eng.program.enum_variant("EventLogType", "Folder"), [Cell(folder_id())])
@@ -273,7 +278,7 @@ def run_scenario(prog, sc):
         ev = lambda x: m.eval(x, model_completion=True).as_long()
         patch = O.concrete_records(m, v["nmeta"])
         for i, p in enumerate(patch):
-            p["payload"] = "".join("%02x" % ev(z3.BitVec("n%d_p%d" % (i, j), 8)) for j in range(PLEN))
+            p["payload"] = "".join("%02x" % ev(z3.BitVec("n%d_p%d" % (i, j), 8)) for j in range(plen_of(sc)))
         case = {"op": "server_event_patch", "what": what, "scenario": sc, "direct": bool(sc.get("direct")), "force": bool(sc.get("force")), "identity": bool(sc.get("identity")),
                 "log": O.concrete_records(m, v["imeta"], prefix="i"),
                 "rewind_to": None if v["target"] is None else ev(v["target"]),
@@ -314,8 +319,15 @@ def run_scenario(prog, sc):
                 check(res, verified, "forced replacement accepted although the checkpoint is not the head of the new events", "force|accepted wrong checkpoint")
                 check(res, O.leaves_are(v["mem_leaves"], nc), "log after a forced replacement is not the new events", "force|wrong log")
             else:
-                check(res, b_not(verified), "forced replacement refused although the checkpoint matches", "force|refused matching checkpoint")
-                unchanged(res, v, "forced replacement of the folder log refused", "force refused")
+                # not verified => nothing may have changed
+                what = "forced replacement of the folder log refused"
+                check(res, b_or(verified, O.files_equal(v["pre_file"], v["post_file"])), "%s but the log file changed" % what, "force refused|file changed")
+                check(res, b_or(verified, O.leaves_eq(v["mem_leaves"], v["pre_leaves"])), "%s but the in-memory tree changed" % what, "force refused|tree changed")
+                check(res, b_or(verified, v["reopen"] == "Ok" and O.leaves_eq(v["reopen_leaves"] or [], v["pre_leaves"])),
+                      "%s but a restart does not read the previous log back" % what, "force refused|restart differs")
+                # verified => the request must not fail after the replacement has been written
+                check(res, b_not(verified), "forced replacement failed after the verified replacement had been written (the new events do not "
+                      "reduce to a folder): error returned, log file replaced, the server keeps the old tree in memory", "force|failed after replacing")
             return
         if r.variant == "Ok":
             first = r.fields[0].v.fields[0].v if not sc.get("identity") else None   # (PatchResponse, MergeOutcome).0 or (CheckedPatch, Vec<_>).0
@@ -378,7 +390,7 @@ def confirm(case, nat):
     res = nat.get("result", "")
     pl = nat.get("prefix_leaf")
     changed = nat["file_changed"] or nat["memory"] != nat["before"] or nat["reopened"] != nat["before"]
-    if "forced replacement of the folder log refused" in what:
+    if "forced replacement of the folder log refused" in what or "failed after the verified replacement" in what:
         return res.startswith("err") and changed
     if "forced replacement" in what:
         return False
